@@ -27,6 +27,68 @@ int main_replay(){
 }
 '''
 
+REPLAY_FULL = r'''
+/* The real SampleDREAM (both forms) with scripted callbacks; checks taken from the property statement:
+ *  (1) a run appends exactly max(num_collect,0) x chains samples (CBMC's burn-up / collect counts and a few more),
+ *  (2) recorded samples pass the domain test and their recorded values are the probability function there,
+ *  (3) with a constant probability and an acceptance draw of exactly 1 (ratio 1 >= 1, difference 0 >= log 1) every chain moves,
+ *  (4) two consecutive runs equal one run of the combined length. */
+static const int NCH = 4;
+template<TasDREAM::TypeSamplingForm form> int scenario(int burnup, int collect, bool constant_pdf){
+  int bad = 0;
+  auto pdfv = [&](double x)->double{ double v = constant_pdf ? 1.0 : std::exp(-x * x); return (form == TasDREAM::logform) ? std::log(v) : v; };
+  auto pdf = [&](const std::vector<double> &c, std::vector<double> &v)->void{ for (size_t i = 0; i < v.size(); i++) v[i] = pdfv(c[i]); };
+  auto inside = [&](const std::vector<double> &x)->bool{ return x[0] > -3.0 && x[0] < 3.0; };
+  auto run = [&](TasDREAM::TasmanianDREAM &st, int b, int c, size_t &calls)->void{
+    auto rng = [&]()->double{ size_t k = calls++ % (3 * NCH); if (k < 2 * NCH) return (k % 2 == 0) ? 0.0 : 0.5; return constant_pdf ? 1.0 : 0.3; };
+    TasDREAM::SampleDREAM<form>(b, c, pdf, inside, st, TasDREAM::no_update, TasDREAM::const_one, rng);
+  };
+  TasDREAM::TasmanianDREAM st(NCH, 1);
+  std::vector<double> init(NCH); for (int i = 0; i < NCH; i++) init[i] = 0.1 * (i + 1) * (i + 1);
+  st.setState(init);
+  size_t calls = 0;
+  run(st, burnup, collect, calls);
+  size_t expect = (collect > 0 ? (size_t) collect : 0) * NCH;
+  if (st.getNumHistory() != expect) { std::printf("burnup %d collect %d: %zu samples recorded, expected %zu\n", burnup, collect, st.getNumHistory(), expect); bad++; }
+  const std::vector<double> &h = st.getHistory(); const std::vector<double> &hp = st.getHistoryPDF();
+  for (size_t i = 0; i < hp.size() && i < h.size(); i++) {
+    if (!inside(std::vector<double>{h[i]})) { std::printf("recorded sample %g is outside the domain\n", h[i]); bad++; }
+    if (hp[i] != pdfv(h[i])) { std::printf("recorded value %g is not the probability function at the sample (%g)\n", hp[i], pdfv(h[i])); bad++; }
+  }
+  if (constant_pdf && burnup + collect > 0 && burnup >= 0 && collect >= 0) {
+    TasDREAM::TasmanianDREAM s1(NCH, 1); s1.setState(init); size_t c1 = 0;
+    run(s1, 0, 1, c1);
+    const std::vector<double> &h1 = s1.getHistory();
+    for (int i = 0; i < NCH && (size_t) i < h1.size(); i++) if (h1[i] == init[i]) { std::printf("chain %d did not move although the ratio equals the draw (accept when ratio >= draw)\n", i); bad++; }
+  }
+  if (burnup >= 0 && collect >= 1) {     /* split: (burnup, collect) == (burnup, 1) then (0, collect - 1) */
+    TasDREAM::TasmanianDREAM s2(NCH, 1); s2.setState(init); size_t c2 = 0;
+    run(s2, burnup, 1, c2); run(s2, 0, collect - 1, c2);
+    if (s2.getHistory() != st.getHistory() || s2.getHistoryPDF() != st.getHistoryPDF()) { std::printf("burnup %d collect %d: two consecutive runs differ from one run of the combined length\n", burnup, collect); bad++; }
+  }
+  return bad;
+}
+int main_replay(){
+  int bad = 0;
+  int cases[][2] = {{@BURN@, @COLL@}, {0, 3}, {2, 2}, {-2, 3}, {3, -2}, {-1, -1}, {0, 0}};
+  for (auto &c : cases) for (int k = 0; k < 2; k++) {
+    if (c[0] > 1000 || c[1] > 1000 || c[0] < -1000000 || c[1] < -1000000) continue;
+    bad += scenario<TasDREAM::regform>(c[0], c[1], k == 1);
+    bad += scenario<TasDREAM::logform>(c[0], c[1], k == 1);
+  }
+  __CPROVER_assert(bad == 0, "C15 sample counts, recorded values, acceptance at equality and run splitting hold on the real SampleDREAM");
+  return 0;
+}
+'''
+def replay_full(prop):
+    def rp(job, ob, vals, wd):
+        b, c = vals.get("a_burnup", "1"), vals.get("a_collect", "2")
+        hdr = ("Replay against the real code (scripted scenarios + CBMC's iteration counts).\nproperty %s job %s\nobligation %s: %s\nat %s\ncounterexample: num_burnup=%s num_collect=%s"
+               % (prop, job.name, ob["name"], ob["description"], ob["location"], b, c))
+        body = REPLAY_FULL.replace("@BURN@", "(%s)" % b).replace("@COLL@", "(%s)" % c)
+        return RP.write_and_run(prop, job.name + "." + ob["name"], hdr, ['"TasmanianDREAM.hpp"', '<cmath>'], body, "  main_replay();", lib="dream", timeout=60)
+    return rp
+
 def replay_f13(prop):
     def rp(job, ob, vals, wd):
         need = ["a_num_chains", "a_i", "a_r1", "a_r2"]
@@ -77,7 +139,7 @@ def jobs(tier, seed, prop):
         ctext = (pre + "#define TSG_NCH %d\n#define TSG_NDIM %d\n#define TSG_NITER %d\n#define TSG_FORM %d\n#define TSG_SAMPLE SampleDREAM_%s\n"
                  % (nch, ndim, nit, fi, form) + '#line 1 "/verif/contracts/dream.c"\n' + cf.text(("text",)) + st + cf.text(("harness",), ["h_SampleDREAM"]))
         out.append(Job("dream.SampleDREAM_%s" % form, ctext, "h_SampleDREAM", unwind=max(nch * ndim, nit) + 2,  timeout=600 if tier == "quick" else 2400,
-                       backends=[["--refine-arithmetic"], []], functions=["%s:%d %s" % (f["file"], f["line"], f["name"]) for f in inf["functions"]], info=inf,
+                       backends=[["--refine-arithmetic"], []], functions=["%s:%d %s" % (f["file"], f["line"], f["name"]) for f in inf["functions"]], info=inf, replay=replay_full(prop),
                        bounded="chains <= %d, dimensions <= %d, iterations <= %d (full unwinding with unwinding assertions)" % (nch, ndim, nit),
                        assumed=["TasmanianDREAM small members (getNumChains, getNumDimensions, isStateReady, isPDFReady, getPDFvalue, getChainState, expandHistory, setState, setPDFvalues, saveStateHistory) are modelled by the stubs in contracts/dream.c; only getIJKdelta is enforced on its body",
                                 "R13: the multiplication draw*num_chains, the ratio and the log-difference of the acceptance test are uninterpreted deterministic functions in this job (proved for every interpretation, IEEE included); the F13 block job keeps IEEE arithmetic",
